@@ -672,8 +672,17 @@ def preconditions(sm, R, rule):
         n = len([i for i in (t or {}).get("items", []) if i["kind"] == "AssocFn"])
         R.floor(rule, "items of trait " + tr, n, floor)
     # 3. no environment symbol hides in a closure that the skeleton does not splice
+    # closures handed to Option::map / and_then are spliced as may-calls (run iff the option is Some): their effects are on
+    # the skeleton's paths, and lib.head_call reads the value of `opt.map(closure)` as the closure's effectful call
+    modelled = set()
+    for S_ in sm._supers.values():
+        for cx_ in S_.ctxs:
+            if cx_.how and cx_.how[0] == "closure" and lib.norm(cx_.how[1].get("callee") or "") in ("std::option::Option::<T>::map", "std::option::Option::<T>::and_then"):
+                modelled.add(cx_.bv.id)
     for b in c.bodies:
         if b["kind"] != "closure" or not b["id"].startswith("omaha_client::state_machine"):
+            continue
+        if b["id"] in modelled:
             continue
         bv = BV.of(b)
         for bi, t in bv.calls():
@@ -714,7 +723,8 @@ def preconditions(sm, R, rule):
                     continue        # not a way out of the loop
                 t_ = _unflip(hb_.trace_op(nd_.term["o"]))
                 if t_[0] == "phi" and sum(1 for a_ in t_[1] if _unflip(a_)[0] != "const") >= 1 and len(t_[1]) >= 3:
-                    R.inconclusive(rule, "merged-retry-decision", "the request loop is left on a boolean that merges %d alternatives (%s): which error ends the attempts cannot be read off the edges" % (len(t_[1]), nd_.loc()))
+                    R.condition("merged-retry-decision", "the request loop is left on a boolean that merges %d alternatives (%s): which error ends the attempts cannot be read off the edges" % (len(t_[1]), nd_.loc()),
+                                ("C02-R3", "C06-R1", "C06-R2", "C06-R3", "C06-R4", "C06-R5", "C14-R1"))
                     break
     # 6. construction notes
     for S in sm._supers.values():
